@@ -418,7 +418,7 @@ static void execute(const Plan &p) {
 		for (int s = 0; s < vk::S_NSITES; s++) vk::set_fault((vk::Site)s, 0);
 		run.hook_script.clear();
 		auto open_calls = [&]() { int n = 0; for (auto &q : run.calls) if (q.submitted && q.ncb == 0) n++; return n; };
-		int64_t deadline = G.now_ns + 600 * NS;
+		int64_t deadline = G.now_ns + (600 + 80 * (int64_t)run.calls.size()) * NS;	// calls queue up behind one another on a connection: each may take a whole timeout (at most 70 s)
 		for (int k = 0; k < 300000 && open_calls() > 0 && !stop() && !G.capped && G.now_ns < deadline; k++) {
 			while (!run.paused.empty() && !stop()) { Paused pz = run.paused.back(); run.paused.pop_back(); evrpc_resume_request(pz.vbase, pz.ctx, EVRPC_CONTINUE); }
 			event_base_loop(run.base, EVLOOP_NONBLOCK);
@@ -434,7 +434,7 @@ static void execute(const Plan &p) {
 			if (!q.submitted) continue;
 			if (q.ncb == 0) {
 				if (G.now_ns < deadline) { probe("settle-budget-exhausted"); continue; }
-				V("C43.completion-count", "call %zu (%s): no completion callback after 600 virtual seconds (pool timeout %d s, connection timeout 50 s by default); the handler ran %d time(s)", i, q.which ? "NeverReply" : "Message", (int)p.c("timeout_s"), q.handler_runs);
+				V("C43.completion-count", "call %zu (%s): no completion callback after %d virtual seconds (pool timeout %d s, connection timeout 50 s by default, %zu calls in all); the handler ran %d time(s)", i, q.which ? "NeverReply" : "Message", (int)(600 + 80 * run.calls.size()), (int)p.c("timeout_s"), run.calls.size(), q.handler_runs);
 				break;
 			}
 			run.compared++;
